@@ -32,7 +32,7 @@ def battery(step, world, model, res, op, status, exc):
         for attr in NAV_ATTRS:
             got = lib_nav_one(world, node, attr)
             res.bump("nav_queries")
-            if got != want[attr] or type(got) is not type(want[attr]):
+            if got != want[attr]:
                 raise Violation(
                     "C04",
                     attr,
